@@ -6,6 +6,7 @@ import json, os, shutil, subprocess, sys, glob
 
 ENV = dict(os.environ, GOFLAGS='-mod=mod', GOPROXY='off', GOSUMDB='off', GOTOOLCHAIN='local')
 SEED = '/tmp/seed'
+ROUND = ''   # '' = first round (fixed CFG table); '2' = second round (/tmp/seed2, demos discovered), stored as <id>b
 CFG = {
  'C01': ('service', 'TestSeededC01', ['./service/']),
  'C02': ('service', 'TestSeeded', ['./service/']),
@@ -33,6 +34,21 @@ def run(cmd, cwd, timeout=600):
     p = subprocess.run(cmd, cwd=cwd, env=ENV, capture_output=True, text=True, timeout=timeout)
     return p.returncode, (p.stdout + p.stderr)
 
+def discover(pid):
+    """round >= 2: the agent's worktree holds the demo files as untracked *_test.go files; demo.md holds the command"""
+    wt0 = os.path.join(SEED, 'wt-' + pid)
+    st = subprocess.run(['git', '-C', wt0, 'status', '--porcelain', '-uall'], capture_output=True, text=True).stdout
+    rels = [l[3:].strip() for l in st.splitlines() if l.startswith('??') and l.strip().endswith('_test.go')]
+    md = ''
+    for f in ('demo.md', 'notes.md'):
+        try: md += open(os.path.join(SEED, 'out-' + pid, f)).read() + '\n'
+        except Exception: pass
+    import re
+    m = re.search(r'go test[^\n`]*-run[ =]+(\S+)([^\n`]*)', md)
+    runpat = m.group(1).strip('\'"') if m else 'TestSeeded'
+    pkgs = sorted({'./' + os.path.dirname(r) + '/' for r in rels})
+    return rels, runpat, pkgs
+
 def validate(pid):
     out = os.path.join(SEED, 'out-' + pid)
     wt = '/var/tmp/sw-' + pid
@@ -41,9 +57,18 @@ def validate(pid):
     subprocess.run(['git', '-C', '/repo', 'worktree', 'add', '-q', '--detach', wt, 'HEAD'], check=True)
     meta = {'property': pid, 'ran': []}
     try:
-        pkgdir, runpat, pkgs = CFG[pid]
         demos = []
-        if pid == 'C20':
+        if ROUND:
+            rels, runpat, pkgs = discover(pid)
+            for r in rels:
+                os.makedirs(os.path.dirname(os.path.join(wt, r)), exist_ok=True)
+                shutil.copy(os.path.join(SEED, 'wt-' + pid, r), os.path.join(wt, r)); demos.append((os.path.join(SEED, 'wt-' + pid, r), r))
+            pkgdir = None
+        else:
+            pkgdir, runpat, pkgs = CFG[pid]
+        if ROUND:
+            pass
+        elif pid == 'C20':
             for sub in ('ipinfo', 'prometheus'):
                 for f in glob.glob(os.path.join(out, sub, '*_test.go')):
                     dst = os.path.join(wt, sub, os.path.basename(f)); shutil.copy(f, dst); demos.append((f, os.path.join(sub, os.path.basename(f))))
@@ -82,7 +107,11 @@ def validate(pid):
         shutil.rmtree(wt, ignore_errors=True)
 
 def main():
-    ids = sys.argv[1:] or sorted(CFG)
+    global SEED, ROUND
+    args = sys.argv[1:]
+    if args and args[0].startswith('--round='):
+        ROUND = args[0].split('=')[1]; SEED = '/tmp/seed' + ROUND; args = args[1:]
+    ids = args or sorted(CFG)
     for pid in ids:
         try:
             meta, diff, demos = validate(pid)
@@ -90,7 +119,7 @@ def main():
             print(pid, 'ERROR', ex); continue
         ok = meta.get('demo_passes_without_change') and meta.get('patch_applies') and meta.get('suite_passes_with_change') and meta.get('demo_fails_with_change')
         print(pid, 'CONFIRMED' if ok else 'NOT-CONFIRMED', {k: v for k, v in meta.items() if k not in ('ran',)})
-        d = os.path.join('/verif/seeded', pid)
+        d = os.path.join('/verif/seeded', pid + ({'': '', '2': 'b', '3': 'c'}[ROUND]))
         if ok:
             os.makedirs(d, exist_ok=True)
             open(os.path.join(d, 'patch.diff'), 'w').write(diff)
@@ -101,10 +130,10 @@ def main():
             except Exception: pass
             meta['demo_files'] = [rel for _, rel in demos]
             meta['needs_to_manifest'] = notes[:3000]
-            meta['source'] = 'independent sub-agent given only the property text and a scratch worktree'
+            meta['source'] = 'independent sub-agent given only the property text and a scratch worktree' + (' (round %s: also told the one-line description of the round-1 change, to produce a different one)' % ROUND if ROUND else '')
             json.dump(meta, open(os.path.join(d, 'meta.json'), 'w'), indent=1)
         else:
             os.makedirs('/var/tmp/seed-failed', exist_ok=True)
-            json.dump(meta, open('/var/tmp/seed-failed/%s.json' % pid, 'w'), indent=1)
+            json.dump(meta, open('/var/tmp/seed-failed/%s%s.json' % (pid, ROUND), 'w'), indent=1)
 
 main()
